@@ -34,7 +34,7 @@ import mtest_gen as g
 
 U = Unit("C49_options")
 EEPS, SEPS = 1e-12, 1e-3
-CBAND = param("cband", 100.)
+CBAND = param("cband", 10.)
 
 LIBS = {}
 
